@@ -36,7 +36,8 @@ From Coq Require Import ZArith List Bool.
 From CanVerif Require Import Socketcan.Wire Socketcan.WireSpec Socketcan.Receiver Socketcan.ReceiverSpec
   Socketcan.ReceiverProofs Socketcan.Transmitter Socketcan.TransmitterProofs
   Socketcan.Process Socketcan.ProcessProofs Socketcan.ScanBuffer Socketcan.ScanBufferProofs
-  Socketcan.Glue Socketcan.GlueProofs Socketcan.Emulator Socketcan.EmulatorProofs.
+  Socketcan.Glue Socketcan.GlueProofs Socketcan.Emulator Socketcan.EmulatorProofs
+  Socketcan.Program Socketcan.ProgramProofs.
 Import ListNotations.
 Open Scope Z_scope.
 
@@ -544,3 +545,45 @@ Example C07_emu_nonvacuous :
     [frame_event (S_layout (fr 11)); frame_event (S_layout (fr 12)); EvStop [] zero_frame None] /\
   (exists ef, frame_event (S_layout (fr 12)) = EvFrame [fr 12] (fr 12) false ef).
 Proof. vm_compute. repeat split. eexists. reflexivity. Qed.
+
+(** ACTION-SEQUENCE TIE (Socketcan/Program.v). harness/sockwire reads Receiver.Receive and
+    Transmitter.TransmitFrame from the source text as programs - one node (depth, statement shape) per
+    statement - and the check compares them node by node with the constants
+      [receive_prog]  = ok := Scan(); frame = frame{}; if ok { unmarshalBinary(Bytes());
+                        if interceptor != nil { interceptor(decodeFrame()) } }; return ok
+      [transmit_prog] = var scf; encodeFrame(f); data := make(16); marshalBinary(data);
+                        if deadline, ok := ctx.Deadline(); ok { if err := SetWriteDeadline; err != nil { return wrap } };
+                        if _, err := Write(data); err != nil { return wrap };
+                        if interceptor != nil { interceptor(f) }; return nil
+    [run_receive p icpt r rs] / [run_transmit p icpt dl ans f] execute a program step by step over the
+    state of Receiver.v / Transmitter.v (Scan = the bufio model, the codec nodes = Wire.v). The programs
+    ARE the models, so every theorem of this file and of C06.v is about the extracted statement sequences *)
+Theorem C07_receive_program_is_model : forall r rs,
+  run_receive receive_prog true r rs = RDone (receive r rs) /\
+  run_receive receive_prog false r rs =
+    RDone (match receive r rs with (res, r', rs', _) => (res, r', rs', []) end).
+Proof. exact receive_program_is_model. Qed.
+Print Assumptions C07_receive_program_is_model.
+
+Theorem C07_transmit_program_is_model : forall dl ans f,
+  run_transmit transmit_prog true dl ans f = TDone (transmit dl ans f) /\
+  run_transmit transmit_prog false dl ans f =
+    TDone (filter (fun ev => match ev with TxIntercept _ => false | _ => true end) (fst (transmit dl ans f)),
+           snd (transmit dl ans f)).
+Proof. exact (fun dl ans f => conj (transmit_program_is_model dl ans f) (transmit_program_no_interceptor dl ans f)). Qed.
+Print Assumptions C07_transmit_program_is_model.
+
+(** non-vacuity: the interpreters distinguish the programs from their mutants - the interceptor before
+    the Write, the frame not reset after a failed Scan *)
+Example C07_program_nonvacuous :
+  let f := mkFrame 0x123 2 [1; 2; 0; 0; 0; 0; 0; 0] false false in
+  let early := [(0, NAct TDeclFrame); (0, NAct TEncode); (0, NAct TMakeBuf); (0, NAct TMarshal);
+                (0, NIf CHasInterceptor); (1, NAct TIntercept);
+                (0, NIfErr EWrite); (1, NReturn RetWrapErr); (0, NReturn RetNil)]%nat in
+  run_transmit early true false (mkAnswers None (Some (EOther 7)) 0) f <>
+    TDone (transmit false (mkAnswers None (Some (EOther 7)) 0) f) /\
+  let noreset := [(0, NAct RScan); (0, NIf COk); (1, NAct RResetFrame); (1, NAct RUnmarshalToken);
+                  (0, NReturn RetOk)]%nat in
+  let r := mkReceiver new_scanner (mkSc 5 1 (repeat 9 8)) in
+  run_receive noreset true r [REOF] <> RDone (receive r [REOF]).
+Proof. vm_compute. split; discriminate. Qed.
